@@ -240,7 +240,7 @@ func apiLoc(l gts.Location) gts.Location {
 func edgeRecord(o *Out, gb *seqio.GenBank, i int) string {
 	r := o.Rng
 	f := &gb.Fields
-	switch i % 19 {
+	switch i % 20 {
 	case 0:
 		f.Source.Species = "S" + rstr(r, alWord, 20, 30) + " " + rstr(r, alWord, 20, 30) + " " + rstr(r, alWord, 20, 40)
 		return "long-species"
@@ -316,6 +316,12 @@ func edgeRecord(o *Out, gb *seqio.GenBank, i int) string {
 		f.DBLink.Set("Archive"+itoa(i), "SRR000001, run: first: lane 2")
 		f.DBLink.Set("Other"+itoa(i), "a:b : c")
 		return "dblink-value-with-colons"
+	case 18:
+		// entries are separated by "; " (semicolon AND blank): a semicolon inside an
+		// entry, not followed by a blank, is data
+		f.Keywords = []string{"RefSeq", "lacZ;lacY", "a;b;c"}
+		f.Source.Taxon = []string{"other sequences", "artificial sequences;vectors", "x"}
+		return "semicolon-inside-entry"
 	default:
 		f.DBLink.Set("Empty"+itoa(i), "")
 		return "dblink-empty-value"
